@@ -14,7 +14,10 @@ CMDS = [['cat'], ['info', '#.*'], ['type', 'HELLO'], ['type', '--binary', 'HELLO
         ['type', 'NOSUCH'], ['info', ':2.#.*'], ['extract-files', 'out'], ['extract-unused', 'out'], ['nosuchcmd'], ['dump-sector', '9', '0', '0'],
         # a selection made before a presentation option must survive it (--ui is also tried AFTER these)
         ['--dir', 'W', '--drive', '2', 'cat'], ['--dir', 'W', '--drive', '0', 'info', '#.*'], ['--dir', 'W', '--drive', '2', 'extract-files', 'out'],
-        ['--dir', 'W', '--drive', '0', 'cat']]
+        ['--dir', 'W', '--drive', '0', 'cat'],
+        # ... including an Opus volume letter in the drive selection
+        ['--dir', '$', '--drive', '0B', 'cat'], ['--dir', '$', '--drive', '0B', 'info', '#.*'], ['--dir', '$', '--drive', '0B', 'type', '--binary', 'BFILE'],
+        ['--dir', '$', '--drive', '0A', 'info', '#.*']]
 
 
 def mkres():
